@@ -3,6 +3,7 @@ CONSTANTS N = 0
           NMin = 0
           Adj = {}
           D0 = 1000000
+          Rule = "eth"
           Family = "shortheavy"
           LA = 7
           LB = 6
